@@ -68,7 +68,7 @@ def hdr_view(case, lines):
 
 
 reg(Spec("C09", "Frame headers carry consecutive counters and the encoder's identity", ["AsamCmp.Props.C09"],
-         ["AsamCmp.C09_header_bytes", "AsamCmp.C09_encode", "AsamCmp.C09_config", "AsamCmp.C09_headers"], ["AsamCmp.Props.C09"], gen_enc.gen_c09, view=hdr_view, predicate=gen_enc.pred_c09,
+         ["AsamCmp.C09_header_bytes", "AsamCmp.C09_encode", "AsamCmp.C09_config", "AsamCmp.C09_headers"], ["AsamCmp.Props.C09"], gen_enc.gen_c09, view=hdr_view, batch_predicate=gen_enc.batch_pred_c09,
          rule="exhaustive op sequences over a 7-letter alphabet, random 30-op histories, one history of > 65536 frames; view = first 8 bytes of every frame + reported counter"))
 reg(Spec("C10", "Encoder output does not depend on earlier encode calls", ["AsamCmp.Props.C10"],
          ["AsamCmp.C10_encode_any_state", "AsamCmp.C10_history_independent", "AsamCmp.C10_same_shape"], ["AsamCmp.Props.C10"], gen_enc.gen_c10, view=last_lines(6), predicate=gen_enc.pred_c10,
